@@ -45,6 +45,9 @@ pub fn kind_tag(t: &TokenType) -> u64 {
         Comment(_) => 33,
         Unknown(_) => 34,
         Eof => 35,
+        // a token kind the model does not know: encoded as such, so that the comparison with the model reports it
+        #[allow(unreachable_patterns)]
+        _ => 999,
     }
 }
 
@@ -83,6 +86,9 @@ pub fn enc_lex_err(e: &SplError, out: &mut Vec<u64>) {
                 out.push(2);
                 enc_text(s, out);
             }
+            // a lexical error message the model does not know
+            #[allow(unreachable_patterns)]
+            _ => out.push(98),
         },
         _ => out.push(99),
     }
